@@ -332,3 +332,53 @@ Proof.
 Qed.
 Lemma range1_length n : length (gt_range1 n) = Z.to_nat n.
 Proof. unfold gt_range1. now rewrite map_length, seq_length. Qed.
+
+(* ---------- more on strip ---------- *)
+Lemma lstrip_suffix p s : exists pre, s = pre ++ gt_lstrip_by p s.
+Proof.
+  induction s as [|c t [pre IH]]; [exists []; reflexivity|]. cbn [gt_lstrip_by].
+  destruct (p c); [exists (c :: pre); cbn; now f_equal|exists []; reflexivity].
+Qed.
+Lemma lstrip_Forall (P : ascii -> Prop) p s : Forall P s -> Forall P (gt_lstrip_by p s).
+Proof.
+  intros H. destruct (lstrip_suffix p s) as [pre E]. rewrite E in H. apply Forall_app in H. tauto.
+Qed.
+Lemma strip_by_Forall (P : ascii -> Prop) p s : Forall P s -> Forall P (gt_strip_by p s).
+Proof.
+  intros H. unfold gt_strip_by. apply Forall_rev, lstrip_Forall, Forall_rev, lstrip_Forall, H.
+Qed.
+
+Lemma lstrip_keeps_last p a c : p c = false -> exists a', gt_lstrip_by p (a ++ [c]) = a' ++ [c].
+Proof.
+  intros Hc. induction a as [|x t [a' IH]]; cbn [app gt_lstrip_by].
+  - rewrite Hc. exists []. reflexivity.
+  - destruct (p x); [exists a'; exact IH|exists (x :: t); reflexivity].
+Qed.
+
+(* the first character survives when it is not stripped *)
+Lemma strip_by_head p c t : p c = false -> exists t', gt_strip_by p (c :: t) = c :: t'.
+Proof.
+  intros Hc. unfold gt_strip_by. rewrite lstrip_id by exact Hc. cbn [rev].
+  destruct (lstrip_keeps_last p (rev t) c Hc) as [a' E]. rewrite E, rev_app_distr. cbn. eauto.
+Qed.
+
+(* head ++ word ++ spaces : only the trailing spaces go *)
+Lemma strip_by_tail p c a w post : p c = false -> w <> [] -> Forall (fun x => p x = false) w ->
+  Forall (fun x => p x = true) post -> gt_strip_by p ((c :: a) ++ w ++ post) = (c :: a) ++ w.
+Proof.
+  intros Hc Hne Hw Hpost. unfold gt_strip_by. cbn [app]. rewrite lstrip_id by exact Hc.
+  change (c :: a ++ w ++ post) with ((c :: a) ++ w ++ post).
+  rewrite !rev_app_distr, <- app_assoc. rewrite lstrip_app by (apply Forall_rev; exact Hpost).
+  assert (Hr : Forall (fun x => p x = false) (rev w)) by (apply Forall_rev; exact Hw).
+  destruct (rev w) as [|d r] eqn:E.
+  - apply (f_equal (@length _)) in E. rewrite rev_length in E. destruct w; [congruence|discriminate].
+  - inversion Hr as [|x l Hd _]; subst. cbn [app]. rewrite lstrip_id by exact Hd.
+    change (d :: r ++ rev (c :: a)) with ((d :: r) ++ rev (c :: a)). rewrite <- E, <- rev_app_distr.
+    apply rev_involutive.
+Qed.
+
+Lemma strip_tail c a w post : gt_is_space c = false -> w <> [] -> Forall plainc w ->
+  Forall (fun x => gt_is_space x = true) post -> gt_strip ((c :: a) ++ w ++ post) = (c :: a) ++ w.
+Proof.
+  intros. apply strip_by_tail; auto. eapply Forall_impl; [|eassumption]. intros x [K _]. exact K.
+Qed.
